@@ -366,11 +366,21 @@ def rule_template_cache(run):
     from ..absint import Interp, Reject
     tm = run.idx.mod("cohdl/std/_template.py")
 
+    prims = {"__setattr__": lambda o, k, v: setattr(o, k, v), "hash": hash, "id": id, "repr": repr, "str": str}
+
     class _Meta:
         def __init__(self):
             self.instances = {}
 
-    prims = {"__setattr__": lambda o, k, v: setattr(o, k, v)}
+        def __getattr__(self, name):
+            # helper methods of _TemplateMeta (a key function, ...) are interpreted from the source as well
+            q = f"_TemplateMeta.{name}"
+            if name.startswith("__") or not tm.has_func(q):
+                raise AttributeError(name)
+            fn = tm.func(q)
+            from ..astutil import decorator_names
+            static = "staticmethod" in decorator_names(fn.node)
+            return lambda *a: Interp(tm, dict(prims)).call_function(q, *(a if static else (self, *a)))
 
     def call(name, meta, *a):
         return Interp(tm, dict(prims)).call_function(f"_TemplateMeta.{name}", meta, *a)
@@ -387,6 +397,18 @@ def rule_template_cache(run):
         g2 = call("get_instance", m, "UFixed", "3:-2")
     except Reject as e:
         r1 = r2 = r3 = g1 = g2 = f"rejected: {e}"
+    # arguments whose hashes collide are still different arguments (CPython: hash(-1) == hash(-2))
+    try:
+        m2 = _Meta()
+        call("add_instance", m2, "SFixed", -1, "S[-1]")
+        c1 = call("instance_exists", m2, "SFixed", -2)
+        if c1 is False:
+            call("add_instance", m2, "SFixed", -2, "S[-2]")
+        c2 = call("get_instance", m2, "SFixed", -1)
+    except Reject as e:
+        c1 = c2 = f"rejected: {e}"
+    run.ob(c1 is False and c2 == "S[-1]", "_TemplateMeta.instance_exists", file=tm.rel, line=f.node.lineno, detail="colliding-hashes", expected="arguments -1 and -2 (equal hashes) are different specialisations",
+           found=f"exists(-2)={c1}, get(-1)={c2}")
     run.ob(r1 is False, "_TemplateMeta.instance_exists", file=tm.rel, line=f.node.lineno, detail="other-class-same-arg", expected="False (UFixed[3:-2] does not exist because SFixed[3:-2] does)", found=str(r1))
     run.ob(r2 is True, "_TemplateMeta.instance_exists", file=tm.rel, line=f.node.lineno, detail="same-class-same-arg", expected="True", found=str(r2))
     run.ob(r3 is False, "_TemplateMeta.instance_exists", file=tm.rel, line=f.node.lineno, detail="same-class-other-arg", expected="False", found=str(r3))
